@@ -770,3 +770,80 @@ def c12_metal(tier, rnd):
                 progs.append(program(items + lib, dict(al.dom), main=len(items), libs=[{"from": len(items) + 1, "to": len(items) + len(lib)}],
                                      fam="C12metal:%s:%s:%s" % (c, nested, fl)))
     return progs
+
+
+# ------------------------------------------------------------------ C10 (I18N)
+def c10_family(tier, rnd):
+    quick = tier == "quick"
+    progs = []
+
+    def add(items, al, fam, variant, main=None, libs=()):
+        progs.append(program(items, al.dom, cfg={"_translate_variant": variant}, fam="C10:" + fam, main=main, libs=libs))
+    variants = ["identity", "rewrite"]
+    vals = [S("a"), S("h")]
+    # T1/T5: translate with / without explicit id over different contents
+    contents = {
+        "text": lambda al: [Text("Hello  \n   world")],
+        "interp": lambda al: [Text("Hi ", al.call("content", vals), "  !")],
+        "elem": lambda al: [Text(" a "), Open(name="b", sattr=[]), Text("bold"), CLOSE, Text(" z ")],
+        "ws": lambda al: [Text("  \n  ")],
+        "none": lambda al: [],
+    }
+    for cname, mk in contents.items():
+        for tid in ("", "msg-id"):
+            for v in variants:
+                al = Alloc(tier)
+                items = [Text("pre")] + [Open(name="p", tr=tid, sattr=["class"])] + mk(al) + [CLOSE, Text("post")]
+                add(items, al, "T1:%s:%s:%s" % (cname, tid or "-", v), v)
+    # T2: named children under condition / repeat / omit-tag
+    kinds = ["plain", "cond", "repeat", "omit", "content"]
+    combos = [(a,) for a in kinds] + [(a, b) for a in kinds for b in kinds] + [("plain", "cond", "repeat")]
+    if quick:
+        combos = combos[:5] + rnd.sample(combos[5:], 8)
+    for combo in combos:
+        for tid in ("", "mid"):
+            al = Alloc(tier)
+            items = [Text("pre"), Open(name="p", tr=tid, sattr=[]), Text("You have\n  ")]
+            for n, k in enumerate(combo):
+                nm = "n%d" % n
+                kw = {}
+                if k == "cond":
+                    kw["cond"] = al.call("cond", [B(True), B(False)])
+                elif k == "repeat":
+                    kw["rep"] = (False, "x", al.call("repeat", [SEQ([S("a"), S("b")]), SEQ([])]))
+                elif k == "omit":
+                    kw["omit"] = True
+                elif k == "content":
+                    kw["sub"] = ("content", False, al.call("content", vals))
+                items += [Open(name="b", nm=nm, sattr=["class"] if n == 0 else [], **kw), Text("N%d" % n), CLOSE, Text(" and\n ")]
+            items += [Text("end."), CLOSE, Text("post")]
+            add(items, al, "T2:%s:%s" % ("+".join(combo), tid or "-"), "rewrite" if len(progs) % 2 else "identity")
+    # T3: nested translations
+    for inner_named in (False, True):
+        for v in variants:
+            al = Alloc(tier)
+            items = [Text("pre"), Open(name="div", tr="", sattr=[]), Text("Outer "),
+                     Open(name="span", tr="", nm="inner" if inner_named else "", sattr=[]), Text("Inner  text "),
+                     Open(name="i", nm="deep", sattr=[]), Text("D"), CLOSE, CLOSE, Text(" tail"), CLOSE, Text("post")]
+            add(items, al, "T3:%s:%s" % (inner_named, v), v)
+    # T4: domain / context / target on ancestors
+    sets = [{}, {"d": "d1"}, {"c": "c1"}, {"t": "fr"}, {"d": "d2", "c": "c2", "t": "de"}]
+    pairs = [(a, b) for a in sets for b in sets]
+    if quick:
+        pairs = rnd.sample(pairs, 8)
+    for a, b in pairs:
+        al = Alloc(tier)
+        items = [Open(name="div", i18n=a or None, sattr=[]), Open(name="p", tr="", sattr=[]), Text("one"), CLOSE,
+                 Open(name="section", i18n=b or None, sattr=[]), Open(name="p", tr="two-id", sattr=[]), Text("two"), CLOSE, CLOSE,
+                 Open(name="p", tr="", sattr=[]), Text("three"), CLOSE, CLOSE, Open(name="p", tr="", sattr=[]), Text("four"), CLOSE]
+        add(items, al, "T4:%s/%s" % (sorted(a.items()), sorted(b.items())), "identity")
+    # T4m: a macro body starts from its caller's settings; a filler keeps those of the place where it was written
+    for a, b in ([({"d": "caller"}, {"d": "lib"}), ({"d": "caller", "c": "cc"}, {}), ({}, {"d": "lib", "t": "fr"})] if quick else pairs[:12]):
+        al = Alloc(tier)
+        main = [Open(name="div", i18n=a or None, sattr=[]), Open(um=("m1", 1, False), name="section", sattr=[]), Text("ign"),
+                Open(fs="s", name="b", sattr=[]), Open(name="i", tr="", sattr=[]), Text("in filler"), CLOSE, CLOSE, CLOSE, CLOSE]
+        lib = [Open(name="div", i18n=b or None, sattr=[]), Open(dm="m1", name="div", sattr=[]), Open(name="p", tr="", sattr=[]), Text("in macro"), CLOSE,
+               Open(name="em", i18n={"d": "inner"}, sattr=[]), Open(ds="s", name="u", sattr=[]), Text("default"), CLOSE, CLOSE, CLOSE, CLOSE]
+        add(main + lib, al, "T4m:%s/%s" % (sorted(a.items()), sorted(b.items())), "identity", main=len(main),
+            libs=[{"from": len(main) + 1, "to": len(main) + len(lib)}])
+    return progs
